@@ -116,7 +116,9 @@ def single_fault_cases(tier, r):
         for c in cases:
             fam = c['label'].split(':')[0]
             if phase_of(c['kind'], c['nth']) == 'finalize..download' and c['n_ids'] == 1:
-                k = (c['kind'], c['nth'], c['label'] if fam in ('cert-body', 'status=', 'missing', 'close-after', 'close-mid-body', 'close-before', 'bad-json') or c['label'].startswith('status=') else fam, c['pre'], c['kp_reuse'])
+                if fam == 'acme' and c['kind'] == 'finalize' and c['pre']:
+                    fam = c['label']      # every ACME error type at the finalize request (some are specific to it: badCSR, badPublicKey, ...)
+                k = (c['kind'], c['nth'], c['label'] if fam in ('cert-body', 'status=', 'missing', 'close-after', 'close-mid-body', 'close-before', 'bad-json') or c['label'].startswith('status=') or fam == c['label'] else fam, c['pre'], c['kp_reuse'])
                 if k not in seen:
                     seen.add(k)
                     late.append(c)
